@@ -242,32 +242,41 @@ Accepts(ks, strict) == RunFrom(ks, 1, "start", strict) = "end"
 
 \* number of maximal runs of equal model numbers in a table
 ModelRuns(rows) == Cardinality({ i \in 1..Len(rows) : i = 1 \/ rows[i].model # rows[i - 1].model })
-AtomIdx(lines)  == { i \in 1..Len(lines) : Kind(lines[i]) = "ATOM" }
-ModelIdx(lines) == { i \in 1..Len(lines) : Kind(lines[i]) = "MODEL" }
 ChainOf(line)   == Slice(line, AtomLayout.chain)
+\* (the operators below take ks = Kinds(lines), computed once per text by the caller)
+AtomIdxK(ks)    == { i \in 1..Len(ks) : ks[i] = "ATOM" }
+AtomIdx(lines)  == AtomIdxK(Kinds(lines))
+
+\* model number of the enclosing MODEL record for every ATOM line, in file order (model 1 without MODEL)
+RECURSIVE ModelsFrom(_, _, _, _)
+ModelsFrom(lines, ks, i, cur) ==
+  IF i > Len(ks) THEN <<>>
+  ELSE IF ks[i] = "MODEL" THEN ModelsFrom(lines, ks, i + 1, ModelSerial(lines[i]))
+  ELSE IF ks[i] = "ATOM" THEN <<cur>> \o ModelsFrom(lines, ks, i + 1, cur)
+  ELSE ModelsFrom(lines, ks, i + 1, cur)
 
 \* clause ModelBracketing: the record stream is (MODEL ATOM.. ENDMDL)+ END, one MODEL..ENDMDL
 \* block per model of the table, numbered as the table says
-ModelBracketing(lines, rows) ==
-  /\ Accepts(Kinds(lines), FALSE)
-  /\ Cardinality(ModelIdx(lines)) = ModelRuns(rows)
-  /\ LET got == ReadPdbText(lines) IN
-     Len(got) = Len(rows) /\ \A i \in 1..Len(rows) : got[i].model = rows[i].model
+ModelBracketingK(lines, ks, rows) ==
+  /\ Accepts(ks, FALSE)
+  /\ Cardinality({ i \in 1..Len(ks) : ks[i] = "MODEL" }) = ModelRuns(rows)
+  /\ ModelsFrom(lines, ks, 1, 1) = [i \in 1..Len(rows) |-> rows[i].model]
+ModelBracketing(lines, rows) == ModelBracketingK(lines, Kinds(lines), rows)
 
 \* clause TerAfterEveryChain: the record after the last ATOM of every chain (maximal run of ATOM
 \* records of one chain id, not interrupted by another record) is a TER
-NoTerAfter(lines) ==
-  { i \in AtomIdx(lines) : ~( i < Len(lines)
-                              /\ ( Kind(lines[i + 1]) = "TER"
-                                   \/ (Kind(lines[i + 1]) = "ATOM" /\ ChainOf(lines[i + 1]) = ChainOf(lines[i])) ) ) }
-TerAfterEveryChain(lines) == NoTerAfter(lines) = {}
+NoTerAfterK(lines, ks) ==
+  { i \in AtomIdxK(ks) : ~( i < Len(ks)
+                            /\ ( ks[i + 1] = "TER"
+                                 \/ (ks[i + 1] = "ATOM" /\ ChainOf(lines[i + 1]) = ChainOf(lines[i])) ) ) }
+TerAfterEveryChainK(lines, ks) == NoTerAfterK(lines, ks) = {}
+TerAfterEveryChain(lines) == TerAfterEveryChainK(lines, Kinds(lines))
 
 \* the defect P8 exactly: the only chains without TER are those ended by ENDMDL + MODEL
 \* (last chain of a model that is followed by another model)
-OnlyModelChangeLacksTer(lines) ==
-  /\ NoTerAfter(lines) # {}
-  /\ \A i \in NoTerAfter(lines) :
-        i + 2 <= Len(lines) /\ Kind(lines[i + 1]) = "ENDMDL" /\ Kind(lines[i + 2]) = "MODEL"
+OnlyModelChangeLacksTerK(lines, ks) ==
+  /\ NoTerAfterK(lines, ks) # {}
+  /\ \A i \in NoTerAfterK(lines, ks) : i + 2 <= Len(ks) /\ ks[i + 1] = "ENDMDL" /\ ks[i + 2] = "MODEL"
 
 \* ------------------------------------------------------------------ value shapes (input domain)
 \* <<atom name, element>>: 1-4 characters, primes, leading digit, 4 characters starting with a letter,
